@@ -53,6 +53,17 @@ pub static PLANS: &[PropPlan] = &[PropPlan {
     ],
     real_vs_stub: "real: sonic-rs parser skip/get paths, LazyValue, OwnedLazyValue, LazyArray/LazyObject, serializer raw-emission path, serde glue; simulated: heap bookkeeping only (single simulated caller); absent: threads (C18 covers them), clock, network, disk",
 }, PropPlan {
+    prop: "C15",
+    level: "exploration",
+    sims: &[SimPlan { sim: "dom", quick_runs: 300_000, thorough_runs: 5_000_000 }],
+    rule: "each run keeps a pool of up to 6 live (Value, model) pairs seeded from a parsed root (in-place or copying path), macro-/conversion-built values and empty containers, and runs a drawn history of 2-48 steps over the public mutation API: Array (push pop insert remove swap_remove truncate clear resize resize_with retain retain_mut split_off append drain extend_from_within reserve index assignment iter_mut into_iter extend), Object (insert remove remove_entry get contains_key get_key_value get_mut entry or_insert/or_insert_with/or_insert_with_key/or_default/and_modify/key, occupied insert/remove/get_mut/into_mut, vacant insert/key, retain append iter_mut clear reserve Index IndexMut), Value (IndexMut by usize/&str/String/FastStr/PointerNode with insert-on-missing and null promotion, Index reads, get_mut, pointer / pointer_mut incl. the empty path and absent paths, take, clone of root or subtree, assignment of one member's clone into another, into_array/into_object, equality, to_string), including operations the reference rejects (out of range, wrong kind), which must fail and change nothing. After every step the result is compared with the model's and every pool member is dumped through the public read API and compared. Non-trivial = at least one mutation happened; distinct = distinct hash of the rendered trace",
+    assumptions: &[
+        "documents have no duplicate keys (the reference is a string-keyed map); capacity and member order of promoted objects are never compared",
+        "documented panics (index out of range, wrong kind) are the accepted way to reject an operation",
+        "array::IntoIter::{as_slice, as_mut_slice} are left out: undocumented and visibly not vec::IntoIter semantics, so there is no stated reference",
+    ],
+    real_vs_stub: "real: sonic-rs DOM (node.rs, array.rs, object.rs, index.rs, from.rs, partial_eq.rs, macros), parser, serializer; simulated: heap bookkeeping only (single simulated caller; threads are C16's business); absent: clock, network, disk",
+}, PropPlan {
     prop: "C16",
     level: "exploration",
     sims: &[SimPlan { sim: "arena", quick_runs: 150_000, thorough_runs: 2_500_000 }],
